@@ -454,6 +454,10 @@ func Fixed() []Scenario {
 		// a marker in order, a marker lost (recovered by the difference's state), a late marker (outdated)
 		{P0: 10, Q0: 0, C0: map[int64]int{5: 5}, Log: []Entry{{ID: 1, Kind: KAff, Pos: 11, Count: 1}, {ID: 2, Kind: KMsg, Pos: 12, Count: 1}, {ID: 3, Kind: KAff, Pos: 13, Count: 1}, {ID: 4, Kind: KChAff, Chan: 5, Pos: 7, Count: 2}, {ID: 5, Kind: KChMsg, Chan: 5, Pos: 8, Count: 1}},
 			Actions: []Action{{Op: "a", IDs: []int{1}}, {Op: "p", IDs: []int{2}}, {Op: "e", N: 3}, {Op: "T"}, {Op: "a", IDs: []int{3}}, {Op: "CT", C: 5}, {Op: "a", IDs: []int{4}}}},
+		// gaps on the common pts, the qts and a channel sequence; then the gap timers fire
+		{P0: 10, Q0: 0, C0: map[int64]int{5: 5}, Log: []Entry{{ID: 1, Kind: KMsg, Pos: 11, Count: 1}, {ID: 2, Kind: KMsg, Pos: 12, Count: 1}, {ID: 3, Kind: KQts, Pos: 1, Count: 1}, {ID: 4, Kind: KQOther, Pos: 2, Count: 1},
+			{ID: 5, Kind: KChMsg, Chan: 5, Pos: 6, Count: 1}, {ID: 6, Kind: KChOther, Chan: 5, Pos: 8, Count: 2}},
+			Actions: []Action{{Op: "F"}, {Op: "p", IDs: []int{2}}, {Op: "p", IDs: []int{4}}, {Op: "p", IDs: []int{6}}, {Op: "F"}, {Op: "F"}}},
 		// updates that cover no position (count 0): pushed in order, lost and carried by a common and a
 		// channel difference in the middle of what the difference covers
 		{P0: 10, Q0: 0, C0: map[int64]int{5: 5}, Log: []Entry{{ID: 1, Kind: KOther, Pos: 10, Count: 0}, {ID: 2, Kind: KMsg, Pos: 11, Count: 1}, {ID: 3, Kind: KOther, Pos: 11, Count: 0}, {ID: 4, Kind: KMsg, Pos: 12, Count: 1},
